@@ -273,14 +273,14 @@ theorem AuthMw_serve {τ : Type} (env : Env) (r : String → Res Tok) (hw : Worl
         exact ⟨rfl, by simpa [Ctx.set] using hc⟩
     simp [hrun, liftH, hw'.1, hw'.2]
 
-/-- what the driver cross-checks on every authentication op can never differ: the answer line read off
-    the generated chain is the model's `Decision.render`, for every configuration, table and header -/
-theorem AuthMw_render (env : Env) (st : Store) (admin : Bool) (hdr : String) :
-    genAuthorize env st admin hdr = (authorize env st admin hdr).render := by
-  have h := AuthMw_authorize env st (repoOf st) (repoOf_spec st) id admin (freshCtx hdr ()) rfl
+/-- the answer line read off the generated chain is the model's `Decision.render`, for every repository that
+    meets `RepoSpec`, every configuration, table and header -/
+theorem AuthMw_render_of_spec (env : Env) (st : Store) (r : String → Res Tok) (hr : RepoSpec r st)
+    (admin : Bool) (hdr : String) :
+    renderCtx (serveChain env r id admin (freshCtx hdr ())) = (authorize env st admin hdr).render := by
+  have h := AuthMw_authorize env st r hr id admin (freshCtx hdr ()) rfl
   have hh : (freshCtx hdr ()).header "Authorization" = hdr := by simp [freshCtx]
   rw [hh] at h
-  unfold genAuthorize
   cases ha : authorize env st admin hdr with
   | unauthorized401 why =>
     rw [ha] at h
@@ -299,6 +299,11 @@ theorem AuthMw_render (env : Env) (st : Store) (admin : Bool) (hdr : String) :
     | some a =>
       obtain ⟨tok, hadm, rfl⟩ := hrel
       cases a <;> simp [renderCtx, Ctx.set, Ctx.get, freshCtx, hadm, Decision.render]
+
+/-- what the driver cross-checks on every authentication op can never differ -/
+theorem AuthMw_render (env : Env) (st : Store) (admin : Bool) (hdr : String) :
+    genAuthorize env st admin hdr = (authorize env st admin hdr).render :=
+  AuthMw_render_of_spec env st (repoOf st) (repoOf_spec st) admin hdr
 
 /-! ### the C09 / C10 headlines over the generated definitions -/
 
